@@ -78,6 +78,9 @@ def serve(ep, script, timeout=10.0):
         if a.get("drop"):
             obs["phase_end"] = "drop:" + phase
             return False
+        if "raw" in a:
+            conn.sendall(a["raw"].encode("latin1") + b"\r\n")     # verbatim reply line (C09: replies that are not three digits)
+            return True
         conn.sendall(_reply(a["code"], a.get("multi", False)))
         return True
 
